@@ -120,9 +120,14 @@ def check_order(db, chk):
         wt = calls(body, "io::commit::write_transaction_file")
         bm = calls(body, "Transaction::build_manifest") + calls(body, "Transaction::restore_old_manifest") + calls(body, "Manifest::shallow_clone")
         wm = calls(body, "dataset::write_manifest_file")
-        if len(wt) != 1 or len(wm) != 1 or not bm:
+        if len(wm) != 1 or not bm:
             raise AnchorMissing("%s: write_transaction_file=%d build=%d write_manifest_file=%d" % (key, len(wt), len(bm), len(wm)))
         wmb, wmt = wm[0]
+        # the transaction-file write(s) that can precede publication; a write reachable only after a successful
+        # publication is reported by `nothing-after-publish` below, by name
+        wt = [x for x in wt if wmb in c.reachable_from([x[0]]) and not c.dominates(wmb, x[0])]
+        if len(wt) != 1:
+            raise AnchorMissing("%s: %d write_transaction_file call(s) precede publication (expected 1)" % (key, len(wt)))
         # the transaction file is written (when enabled) before any manifest is built
         r_wo = c.reachable_from([0], include_start=True, avoid=[wt[0][0]])
         dis = calls(body, "ManifestWriteConfig::disable_transaction_file")
